@@ -17,7 +17,7 @@ func init() {
 	Register(&Prop{
 		ID: "C30",
 		Rule: "parse: decimal-ish strings dense around 10^18, 2^63-1, 2^63, 2^64 and with foreign bytes (non-trivial = at least 17 digits or a non-digit inside); " +
-			"append: ints incl. boundaries (non-trivial = n >= 10); hex: hex strings of 0..20 digits with terminators/EOF, delivered at once or in reads of 1..15 bytes (non-trivial = >=2 hex digits); distinct = distinct input",
+			"append: ints incl. boundaries (non-trivial = n >= 10); hex: hex strings of 0..20 digits with terminators/EOF, every byte value after 0..2 digits, delivered at once or in reads of 1..15 bytes (non-trivial = >=2 hex digits); distinct = distinct input",
 		Assumptions: []string{"only the 64-bit build is executed; the width-32 theorems are tied to /repo through the regenerated constants only",
 			"strconv.AppendUint is modelled by Model.appendUint (tied by differential runs)"},
 		Build: func(kind string, a [][]byte) *Case {
@@ -174,6 +174,14 @@ func init() {
 				x &= math.MaxInt64
 				emit("append", strconv.AppendUint(nil, x, 10))
 				emit("hexwrite", strconv.AppendUint(nil, x, 10))
+			}
+			// every byte value right after 0, 1 and 2 hex digits (what is a hex digit is decided per byte)
+			for b := 0; b < 256; b++ {
+				for _, pre := range []string{"", "1", "1f"} {
+					for _, post := range []string{"", "0\r\n"} {
+						emit("hexread", append(append([]byte(pre), byte(b)), post...), []byte{0}, []byte{byte(b % 2)})
+					}
+				}
 			}
 			hexd := []byte("0123456789abcdefABCDEF")
 			terms := [][]byte{nil, B("\r\n"), B(";ext\r\n"), B(" \r\n"), B("g"), B("\n"), B("\x00"), B("xyz")}
